@@ -635,8 +635,26 @@ def replay(ctx, rep):
 
 META = {
     "category": "proof",
-    "level_text": "TO BE FILLED",
-    "level_note": "TO BE FILLED",
+    "level_text": "Partial. Proved in Coq (Properties/C06.v, closed under the global context): for every binding-power table satisfying the "
+                  "boolean predicate table_ok - and the table re-extracted from parser_rd.rs on every run satisfies it by computation - "
+                  "the Pratt loop of the parser model (infix_binding_power, prefix `not`, two-token `not in`, chained-comparison "
+                  "rejection, with both copies of the loop) entered at any binding power of precedence level i returns exactly what the "
+                  "level-i nonterminal of the stratified reference grammar returns (tree, remaining input, rejection), for every operand "
+                  "parser that consumes input; instantiated at every entry point (parse_test, parse_or_test, parse_argument's "
+                  "continue_infix, the operand of `not`, parse_bitor_expr, every right operand). NOT proved: the lifting of this operator-"
+                  "layer theorem through the bracket/argument-list grammar to whole expressions (incl. parse_argument's identifier "
+                  "re-entry = parse_test), and the printer round trip; both are checked on every run by the tie instead: the extracted "
+                  "model and the extracted reference grammar are run on the real lexer's token stream of every generated text and "
+                  "compared with the real parser's tree / rejection, the model printer with Display's tokens, and the real parser is "
+                  "checked for parse(Display(t)) = t and Display fixed point; CPython's ast gives an independent third opinion on the "
+                  "shared subset. Statements (def/if/for/return/load, indentation) are covered by the CPython comparison and the round "
+                  "trip only. One deviation from the specification's grammar is recorded as a known finding (bare tuple expression "
+                  "statement rejected; Coq witness C06_bare_tuple_statement_refuted).",
+    "level_note": "Trusted: Coq kernel; extraction (ExtrOcamlBasic only) + ocaml/parse_driver.ml; tools/extract.py + tools/extract_items/parser.py "
+                  "(regexes over parser_rd.rs); harness bin parse (own AST walker); the real lexer (shared by model and implementation; C05's "
+                  "subject); CPython 3.11 ast as validation of the reference grammar. The model makes explicit that parse_unary consumes "
+                  "a token when it succeeds (guard) and uses explicit fuel for nesting; neither fires on generated inputs (OOF/guard "
+                  "results are reported as failures). The tie is differential testing: a code change outside the generators' reach can escape.",
     "technique": "Coq proof of Pratt = stratified grammar over a table_ok-checked, source-extracted binding-power table; "
                  "extracted model vs implementation vs CPython on exhaustive operator pairs/triples x contexts",
     "design_ref": "DESIGN.md section 4 C06",
